@@ -147,6 +147,10 @@ func valueDesc(v ssa.Value) string {
 		if fv, ok := x.X.(*ssa.FreeVar); ok {
 			return "freevar:" + fv.Name()
 		}
+		if g, ok := x.X.(*ssa.Global); ok {
+			// a package-level function variable (e.g. types.Alerts = alert.Alerts): named after the variable
+			return "global:" + g.Name()
+		}
 		if al, ok := x.X.(*ssa.Alloc); ok && al.Comment != "" {
 			return "local:" + al.Comment
 		}
